@@ -1,6 +1,7 @@
 import Martian.Lemmas.Verify
 import Martian.Props.C13.Conc
 import Martian.Props.C13.Locks
+import Martian.Props.C13.Reconf
 /-!
 C13 — verification reports exactly the unmet expectations since the last reset.
 
